@@ -514,6 +514,51 @@ static void float_equality() {
 	}
 }
 
+// ------------------------------------------------------------------ emplace with an element type that tells its constructors apart
+// (initializer_list / (int,int) / (int)): like the standard containers, emplace direct-initialises - emplace_back(w, f) into a
+// container of std::vector<int> rows builds a row of w copies of f, not the row {w, f}.
+struct InitProbe {
+	int how, a, b;
+	InitProbe(std::initializer_list<int> l) : how(1), a(l.size() > 0 ? *l.begin() : -1), b(l.size() > 1 ? *(l.begin() + 1) : -1) {}
+	InitProbe(int x, int y) : how(2), a(x), b(y) {}
+	explicit InitProbe(int x) : how(3), a(x), b(0) {}
+	bool operator==(const InitProbe &o) const { return how == o.how && a == o.a && b == o.b; }
+};
+static void init_form() {
+	if(!want_mode("init-form")) return;
+	Rng r(derive_seed("init-form"));
+	for(long long i = opt.shard; i < (long long)scaled(600, 20000); i += opt.nshards) {
+		begin_case("init-form", i);
+		AllocState as; as.owner = "init-form";
+		{
+			std::vector<InitProbe> ref; std::vector<std::vector<int>> rrows;
+			frg::vector<InitProbe, TrackedAlloc> v{TrackedAlloc(&as)};
+			frg::small_vector<InitProbe, 2, TrackedAlloc> sv{TrackedAlloc(&as)};
+			frg::stack<InitProbe, TrackedAlloc> st{TrackedAlloc(&as)};
+			frg::list<InitProbe, TrackedAlloc> li{TrackedAlloc(&as)};
+			frg::vector<std::vector<int>, TrackedAlloc> rows{TrackedAlloc(&as)};
+			size_t n = 1 + r.below(6);
+			for(size_t k = 0; k < n; k++) {
+				int x = (int)r.below(9), y = (int)r.below(1000);
+				bool two = r.chance(2, 3);
+				if(two) { ref.emplace_back(x, y); v.emplace_back(x, y); sv.emplace_back(x, y); st.emplace(x, y); li.emplace_back(x, y); rrows.emplace_back(x, y); rows.emplace_back(x, y); }
+				else { ref.emplace_back(x); v.emplace_back(x); sv.emplace_back(x); st.emplace(x); li.emplace_back(x); rrows.emplace_back(x); rows.emplace_back(x); }
+				auto diff = [&](const char *what, const InitProbe &f) {
+					const InitProbe &s = ref.back();
+					if(!(f == s)) model_violation(what, "init-form", strf("%s(%d%s) stored a value built by constructor %d holding (%d, %d); std::vector::emplace_back stores one built by constructor %d holding (%d, %d)", what, x, two ? ", y" : "", f.how, f.a, f.b, s.how, s.a, s.b));
+				};
+				diff("vector::emplace_back", v[v.size() - 1]); diff("small_vector::emplace_back", sv[sv.size() - 1]); diff("stack::emplace", st.top());
+				if(!(rows[rows.size() - 1] == rrows.back())) model_violation("vector", "init-form", strf("vector<std::vector<int>>::emplace_back(%d%s) stored a row of %zu elements, std::vector stores one of %zu", x, two ? ", y" : "", rows[rows.size() - 1].size(), rrows.back().size()));
+			}
+			size_t k = 0;
+			while(!li.empty()) { if(k < ref.size() && !(li.front() == ref[k])) model_violation("list", "init-form", strf("list::emplace_back stored a value built by constructor %d, std::vector::emplace_back one built by constructor %d", li.front().how, ref[k].how)); li.pop_front(); k++; }
+		}
+		expect_no_blocks(as, "after the init-form case");
+		count("init_form_cases");
+		note_distinct(mix(hash_str("init-form"), i));
+	}
+}
+
 // ---- an intrusive list (and its nodes) with static storage duration that is filled while other namespace-scope objects are still
 // being constructed (driver registries, the kernel's list of CPUs): list and hook have constexpr constructors, so both are
 // constant-initialised and what the constructor of an *earlier* global linked is still linked when main() starts.
@@ -558,5 +603,6 @@ int main(int argc, char **argv) {
 	run_type<DynAdapter<PodNZ>>("dyn_array<pod-nonzero-default>", t ? 5 : 4, scaled(100, 4000), 40);
 	run_type<IListAdapter>("intrusive_list", t ? 6 : 5, scaled(600, 30000), t ? 300 : 60);
 	float_equality();
+	init_form();
 	return finish();
 }
